@@ -256,6 +256,7 @@ func TestC24(t *testing.T) {
 
 	// transport parameter lists
 	lists := mon.Pick(4000, 200000)
+	readsWithoutLen := 0
 	for i := 0; i < lists; i++ {
 		rg := Sub("C24tp", i)
 		k := rg.Intn(12)
@@ -299,12 +300,29 @@ func TestC24(t *testing.T) {
 		} else if nn != len(buf) || len(buf) < 4 || buf[0] != 0 || buf[1] != 57 || int(buf[2])<<8|int(buf[3]) != len(buf)-4 {
 			r.Violation(map[string]string{"kind": "tp_extension_framing"}, fmt.Sprintf("quic_transport_parameters extension framing wrong (Len=%d, Read=%d)", ext.Len(), nn), map[string]any{"case": i})
 		}
+		// a consumer that calls Read without asking for Len first (a Read into a large
+		// buffer): the same list object in a fresh extension must yield the same bytes
+		// (tps have produced their ids and values by now, so nothing random is left to draw)
+		if len(body) <= 65535 {
+			fresh := &tls.QUICTransportParametersExtension{TransportParameters: tps}
+			// (TLSExtension.Read wants the whole encoding to fit: a buffer that is large
+			// enough, of a size the caller chose without consulting Len)
+			big := make([]byte, len(buf)+1+i%300)
+			n2, _ := fresh.Read(big)
+			got := big[:n2]
+			if !bytes.Equal(got, buf) {
+				r.Violation(map[string]string{"kind": "tp_extension_read_without_len"}, fmt.Sprintf("Read on a fresh extension (no Len call before) yields %d bytes (%x...), Len-then-Read yields %d", len(got), got[:min(len(got), 8)], len(buf)), map[string]any{"case": i})
+			}
+			readsWithoutLen++
+		}
 		r.Case("tplist|"+shape, k > 0)
 		if i < 3 {
 			r.Sample(map[string]any{"list_len": k, "body": mon.Hex(body)})
 		}
 	}
 	r.Count("tp_lists", int64(lists))
+	r.Count("extension_reads_without_len", int64(readsWithoutLen))
+	r.Floor("extension_reads_without_len", 100)
 	r.Assume("values in the 4- and 8-byte classes are sampled (boundaries, powers of two, uniform draws), not enumerated")
 }
 
